@@ -3,6 +3,7 @@ package main
 import (
 	"bytes"
 	"fmt"
+	"time"
 
 	"github.com/tonkeeper/tongo/boc"
 
@@ -11,6 +12,7 @@ import (
 
 func init() {
 	execs["c01.ser"] = execC01Ser
+	execs["c01.hist"] = execC01Hist
 	gens["C01"] = genC01
 }
 
@@ -77,6 +79,10 @@ func execC01Ser(in sx.V) sx.V {
 
 func genC01(c *Ctx) {
 	r := c.R
+	// first (so that the first input reported as hanging is a small one): DAGs
+	// whose number of root-to-leaf paths is exponential in the number of cells,
+	// shared cells that have children (index / cache bits): c01b.go
+	genC01Sharing(c, r.Fork(0xc01a))
 	n := c.Scale(110, 3000)
 	for i := 0; i < n; i++ {
 		size := 1 + r.Intn(16)
@@ -99,12 +105,8 @@ func genC01(c *Ctx) {
 			opts = []int{0, 1, 2, 3, 4, 5, 6, 7}
 		}
 		for _, o := range opts {
-			in := sx.L(dagSx(dag), sx.Nat(0), sx.B(o&1 != 0), sx.B(o&2 != 0), sx.B(o&4 != 0))
-			out := c.Emit("c01.ser", in, fmt.Sprintf("%s|opt%d|n%d", fam, o, bucket(size)))
-			if out.K == sx.KL && len(out.List) == 2 && !out.List[1].Bool {
-				c.Fail("c01.ser", in, "roundtrip", "own output does not parse back to a structurally identical root with the same hash")
-			}
-			if o == opts[0] {
+			in, out, fast := c01EmitSer(c, dag, o, fmt.Sprintf("%s|opt%d|n%d", fam, o, bucket(size)))
+			if fast && o == opts[0] {
 				c01Oracles(c, in, dag, out)
 			}
 		}
@@ -115,11 +117,7 @@ func genC01(c *Ctx) {
 		for _, shape := range []string{"fan", "chainfan"} {
 			dag := exactDag(cnt, shape)
 			for _, o := range []int{0, 7, r.Intn(8)} {
-				in := sx.L(dagSx(dag), sx.Nat(0), sx.B(o&1 != 0), sx.B(o&2 != 0), sx.B(o&4 != 0))
-				out := c.Emit("c01.ser", in, fmt.Sprintf("exact%d|%s|opt%d", cnt, shape, o))
-				if out.K == sx.KL && len(out.List) == 2 && !out.List[1].Bool {
-					c.Fail("c01.ser", in, "roundtrip", fmt.Sprintf("own output of a DAG with exactly %d distinct cells does not parse back", cnt))
-				}
+				c01EmitSer(c, dag, o, fmt.Sprintf("exact%d|%s|opt%d", cnt, shape, o))
 			}
 		}
 	}
@@ -147,9 +145,105 @@ func genC01(c *Ctx) {
 			}
 			dag[i].Bits = fmt.Sprintf("%b", i%5)
 		}
-		in := sx.L(dagSx(dag), sx.Nat(0), sx.B(false), sx.B(true), sx.B(false))
-		c.Emit("c01.ser", in, fmt.Sprintf("chain|depth%d", depth))
+		c01EmitSer(c, dag, 2, fmt.Sprintf("chain|depth%d", depth))
 	}
+	// histories: cells that are written to after they were serialised: c01c.go
+	genC01Hist(c, r.Fork(0xc01b))
+	if c01st.skipped > 0 {
+		c.Fail("c01.ser", sx.Nat(c01st.skipped), "ser-timeout-skipped",
+			fmt.Sprintf("%d further inputs with an unfolded tree of at least %d cells were not run after %d serialisations had hung", c01st.skipped, c01st.skipFrom, c01st.hangs))
+	}
+}
+
+// c01.ser cases run in the guarded child (20 s limit): a serialisation that
+// does not finish is an outcome ('timeout: a class mismatch with the model,
+// which always answers) and an oracle failure with the concrete DAG.  After
+// c01MaxHangs hangs, inputs whose unfolded tree is at least as large as the
+// smallest one that hung are not run any more (each would cost the limit).
+const c01MaxHangs = 2
+const c01MaxSlow = 8
+
+var c01st struct {
+	hangs    int
+	skipFrom uint64
+	slow     int
+	slowFrom uint64
+	skipped  int
+}
+
+func c01TreeSize(dag []Node) uint64 {
+	const cap = uint64(1) << 62
+	if len(dag) == 0 {
+		return 0
+	}
+	sz := make([]uint64, len(dag))
+	for i := len(dag) - 1; i >= 0; i-- {
+		s := uint64(1)
+		for _, t := range dag[i].Refs {
+			s += sz[t]
+			if s > cap {
+				s = cap
+			}
+		}
+		sz[i] = s
+	}
+	return sz[0]
+}
+
+func c01IsAtom(v sx.V, names ...string) bool {
+	for _, n := range names {
+		if v.IsA(n) {
+			return true
+		}
+	}
+	return false
+}
+
+// c01EmitSer runs one c01.ser case (root = cell 0) in the guarded child and
+// evaluates the outcome oracles; fast reports that the implementation answered
+// with bytes quickly, so that in-process oracles may serialise the input again
+// (an input that timed out or crashed in the child is never run in-process).
+func c01EmitSer(c *Ctx, dag []Node, o int, class string) (in, out sx.V, fast bool) {
+	in = sx.L(dagSx(dag), sx.Nat(0), sx.B(o&1 != 0), sx.B(o&2 != 0), sx.B(o&4 != 0))
+	ts := c01TreeSize(dag)
+	if c01st.hangs >= c01MaxHangs && (ts >= c01st.skipFrom || (c01st.slow >= c01MaxSlow && ts >= c01st.slowFrom)) {
+		c01st.skipped++
+		return in, sx.A("skipped"), false
+	}
+	t0 := time.Now()
+	out = c.EmitGuarded("c01.ser", in, class)
+	el := time.Since(t0)
+	switch {
+	case c01IsAtom(out, "timeout"):
+		c01st.hangs++
+		if c01st.skipFrom == 0 || ts < c01st.skipFrom {
+			c01st.skipFrom = ts
+		}
+		c.Fail("c01.ser", in, "ser-timeout", fmt.Sprintf("serialising a DAG of %d cells (unfolded tree: %d cells) with options %d did not finish within 20 s", len(dag), ts, o))
+	case c01IsAtom(out, "crash"):
+		c.Fail("c01.ser", in, "ser-crash", fmt.Sprintf("serialising a DAG of %d cells with options %d killed the process (fatal error / memory limit)", len(dag), o))
+	case out.K == sx.KL && len(out.List) == 2:
+		if !out.List[1].Bool {
+			c.Fail("c01.ser", in, "roundtrip", fmt.Sprintf("own output for a DAG of %d cells does not parse back to a structurally identical root with the same hash", len(dag)))
+		}
+		if o&1 != 0 {
+			if what := c01IndexOracle(out.List[0].Bytes, o&4 != 0); what != "" {
+				c.Fail("c01.ser", in, "index-bytes", what)
+			}
+		}
+		fast = el < 2*time.Second
+		if el > 5*time.Second {
+			// answered, but three orders of magnitude slower than any input of
+			// this size on the unchanged tree (not an alarm by itself: the limit
+			// is the child's 20 s): after c01MaxSlow such answers and the hangs,
+			// inputs of at least that tree size are not run any more either
+			c01st.slow++
+			if c01st.slowFrom == 0 || ts < c01st.slowFrom {
+				c01st.slowFrom = ts
+			}
+		}
+	}
+	return in, out, fast
 }
 
 // exactDag builds a DAG of exactly n pairwise different cells reachable from
@@ -238,6 +332,9 @@ func c01Oracles(c *Ctx, in sx.V, dag []Node, out sx.V) {
 		return
 	}
 	own := out.List[0].Bytes
+	// own generator: whether the oracles run (they are skipped for slow inputs)
+	// must not change the cases generated afterwards
+	r := c.R.Fork(0xc010 + uint64(len(own)))
 	cells, err := buildGo(dag)
 	if err != nil {
 		return
@@ -268,7 +365,13 @@ func c01Oracles(c *Ctx, in sx.V, dag []Node, out sx.V) {
 	}
 	// same structure, no pointer sharing -> same bytes
 	sub, idx := reachable(dag, 0)
-	if len(sub) <= 14 {
+	if rs := c01Reshare(sub, r.Fork(1)); rs != nil {
+		b2, err := rs[idx].ToBocCustom(in.List[2].Bool, in.List[3].Bool, in.List[4].Bool, 0)
+		if err != nil || !bytes.Equal(own, b2) {
+			c.Fail("c01.ser", in, "canonical", "structurally equal inputs with different pointer sharing (every cell built twice, parents pick a copy) serialise to different bytes")
+		}
+	}
+	if len(sub) <= 14 && c01TreeSize(sub) <= 4096 {
 		if t := buildTree(sub, idx, 0); t != nil {
 			b2, err := t.ToBocCustom(in.List[2].Bool, in.List[3].Bool, in.List[4].Bool, 0)
 			if err != nil || !bytes.Equal(own, b2) {
@@ -283,12 +386,12 @@ func c01Oracles(c *Ctx, in sx.V, dag []Node, out sx.V) {
 		return
 	}
 	for k := 0; k < 3; k++ {
-		hv := randVariant(c.R)
+		hv := randVariant(r)
 		roots := []int{idx}
-		if c.R.Chance(40) && len(sub) > 1 {
-			roots = append(roots, c.R.Intn(len(sub)))
+		if r.Chance(40) && len(sub) > 1 {
+			roots = append(roots, r.Intn(len(sub)))
 		}
-		b := refSerialize(sub, roots, hv, c.R)
+		b := refSerialize(sub, roots, hv, r)
 		parsed, err := boc.DeserializeBoc(b)
 		if err != nil || len(parsed) != len(roots) {
 			c.Fail("c01.ser", sx.Bytes(b), "foreign-parse", "a well-formed BOC written by the reference serialiser is rejected")
